@@ -1,4 +1,5 @@
 import TdModel.Model.C30Interp
+import TdModel.Model.C30Mgr
 import TdModel.Prim.All
 open TdModel TdModel.C30
 
@@ -10,6 +11,8 @@ open TdModel TdModel.C30
   interleaving of the notifications' atomic steps that ends in exactly that state with those results?
 * `script <hasStorage> <primaryDC> <stored|-> <act>…` (`S:<notif>` / `A:<i>`) → `<results,…> <state>` after exactly that
   interleaving (notif kind `m` = migration to `dc`)
+* `conns <hasStorage> <primaryDC> <stored|-> <act>…` (`N:r|c:<dc>` new connection, `E:<id>:<session>` session confirmed on
+  connection id, `I:<id>:<serverDC>` its config arrives) → final client state
 * `restore <hasStorage> <primaryDC> nf|err|<stored>` → `ok <session>` / `err load` / `err corrupted`
   (SHA-1 = `Prims.real`)
 
@@ -50,6 +53,18 @@ def parseNotif (t : String) : Option Notif :=
     let f ← (if f == "n" then some Fault.none else if f == "l" then some Fault.loadErr
       else if f == "s" then some Fault.saveErr else none)
     pure ⟨kind, ← dc.toInt?, ⟨← ofHex k, ← ofHex i⟩, ⟨← ofHex pk, ← ofHex pi⟩, ← salt.toInt?, f⟩
+  | _ => none
+
+/-- `N:r|c:<dc>` / `E:<id>:<key>,<keyid>,<perm>,<permid>,<salt>` / `I:<id>:<serverDC>` -/
+def parseMAct (t : String) : Option MAct :=
+  match t.splitOn ":" with
+  | ["N", k, dc] => do pure (.new (k == "c") (← dc.toInt?))
+  | ["E", id, ev] =>
+    match ev.splitOn "," with
+    | [kv, ki, pv, pi, salt] => do
+      pure (.ev (← id.toNat?) ⟨⟨← ofHex kv, ← ofHex ki⟩, ⟨← ofHex pv, ← ofHex pi⟩, ← salt.toInt?⟩)
+    | _ => none
+  | ["I", id, sd] => do pure (.init (← id.toNat?) (← sd.toInt?))
   | _ => none
 
 def zeroKey : AuthKey := ⟨List.replicate 256 0, List.replicate 8 0⟩
@@ -96,6 +111,14 @@ def handle (line : String) : String :=
         if reach goal (6 * ts.length) s ts then "reachable" else "unreachable"
       | none => "bad-op"
     | _, _, _ => "bad-op"
+  | "conns" :: hs :: dc :: st :: acts =>
+    let stored := if st == "-" then some none else (parseStored st).map some
+    match stored, acts.mapM parseMAct with
+    | some stored, some acts =>
+      match mkSt hs dc stored with
+      | some s => showSt (mrun (s, []) acts).1
+      | none => "bad-op"
+    | _, _ => "bad-op"
   | "script" :: hs :: dc :: st :: acts =>
     let stored := if st == "-" then some none else (parseStored st).map some
     match stored, acts.mapM parseAct with
